@@ -171,7 +171,7 @@ def check(pid, tier, seed, args):
 
     violations = []
     known_hit = []
-    replay_dir = os.path.join(HERE, 'replays', pid)
+    replay_dir = os.path.join(os.environ.get('PYVC_OUT_DIR', HERE), 'replays', pid)
     for cid, name, cl in refuted:
         full = "%s::%s" % (cid, name)
         kf = [k for k in kfs if k.get('obligation') == full]
@@ -275,8 +275,9 @@ def check(pid, tier, seed, args):
             cov['samples'] = standin['samples'][:6]
     ev = {'property_id': pid, 'tier': tier, 'seed': seed, 'level': level, 'coverage': cov,
           'assumptions': assumptions, 'wall_s': round(wall, 2), 'violations': len(violations)}
-    os.makedirs(os.path.join(HERE, 'evidence'), exist_ok=True)
-    with open(os.path.join(HERE, 'evidence', pid + '.json'), 'w') as f:
+    evdir = os.path.join(os.environ.get('PYVC_OUT_DIR', HERE), 'evidence')
+    os.makedirs(evdir, exist_ok=True)
+    with open(os.path.join(evdir, pid + '.json'), 'w') as f:
         json.dump(ev, f, indent=1, default=str)
     print("%s tier=%s level=%s obligations=%d discharged=%d instances=%d contracts=%d solver=%.1fs wall=%.1fs"
           % (pid, tier, level, n_obl, n_proved, n_inst, len(contracts), solver_time, wall))
